@@ -176,11 +176,15 @@ class DeadlineQueue(QueuePolicy[T]):
         """
         now = self._now()
 
+        # The heap list is only partially ordered: past the root, array order
+        # is not deadline order, so scan for the minimal non-expired entry
+        # (the one pop() would return).
+        best = None
         for entry in self._heap:
-            if now is None or entry.deadline >= now:
-                return entry.item
+            if (now is None or entry.deadline >= now) and (best is None or entry < best):
+                best = entry
 
-        return None
+        return best.item if best is not None else None
 
     def purge_expired(self) -> int:
         """Remove all expired items from the queue.
